@@ -31,7 +31,7 @@ LEVEL_NOTE = 'scipy.special as independent source of the tail probabilities; gua
 
 VALS_Q = [-2.0, 0.0, 1.0, 1.000001, 3e-12, 1.3, 4.0, float('nan'), float('inf')]    # incl. two close values and a tiny one
 VALS_T = VALS_Q + [float('-inf'), 1e300, 5e-324]
-ERRS_Q = [0.0, 0.1, 1.0, float('nan'), float('inf')]
+ERRS_Q = [0.0, 1e-12, 0.1, 1.0, float('nan'), float('inf')]
 ERRS_T = ERRS_Q + [1e-300]
 SHAPES = [(), (1,), (3,), (2, 2), (1, 2, 1)]
 #          v1   e1   v2    e2
@@ -138,6 +138,40 @@ def job(args):
     if exp_all is not None and bool(res) != exp_all:
         rep.violate('C05|verdict|array-all', f'{ctx}: verdict {bool(res)} over all bins, reference {exp_all}', {'alpha': alpha, 'ndf': ndf})
     arr_orc = [bool(x) for x in orc]
+    # ---- memory layouts: the same bins as a square 2-d array stored Fortran-ordered, as a transposed view and as a strided view
+    side = int(round(math.sqrt(len(bins))))
+    if side * side == len(bins):
+        def lay(arr, how):
+            arr = np.array(arr, dtype=float).reshape(side, side)
+            if how == 'fortran':
+                return np.asfortranarray(arr)
+            if how == 'transposed-view':
+                return np.ascontiguousarray(arr.T).T
+            wide = np.zeros((side, 2 * side))
+            wide[:, ::2] = arr
+            return wide[:, ::2]
+        from valjean.eponine.dataset import Dataset
+        ref_ts, ref_ps = np.asarray(res.tstud[0], dtype=float), np.asarray(res.pvalue[0], dtype=float)
+        for how in ('fortran', 'transposed-view', 'strided'):
+            da = Dataset(lay([b[0] for b in bins], how), lay([b[1] for b in bins], how))
+            db = Dataset(lay([b[2] for b in bins], how), lay([b[3] for b in bins], how))
+            resl = TestStudent(da, db, name='c05', alpha=alpha, ndf=ndf).evaluate()
+            got_t = np.asarray(resl.tstud[0], dtype=float).reshape(-1)
+            got_p = np.asarray(resl.pvalue[0], dtype=float).reshape(-1)
+            got_o = np.asarray(resl.oracles()[0]).reshape(-1)
+            rep.evaluations += len(bins)
+            rep.outcomes[('layout', how, bool(resl))] += 1
+            for i in np.flatnonzero(~(np.isclose(got_t, ref_ts, rtol=1e-12, atol=0, equal_nan=True) | (got_t == ref_ts))
+                                    | ~(np.isclose(got_p, ref_ps, rtol=1e-9, atol=0, equal_nan=True))
+                                    | (got_o.astype(bool) != np.array(arr_orc)))[:20]:
+                rep.violate(f'C05|layout|{how}|{_tag(bins[i])}', f'{ctx} bin {bins[i]} in a {how} array: t={got_t[i]!r} p={got_p[i]!r} '
+                            f'oracle={bool(got_o[i])}, the same bin in a C-ordered array gives t={ref_ts[i]!r} p={ref_ps[i]!r} oracle={arr_orc[i]}',
+                            {'bin(v1,e1,v2,e2)': bins[i], 'layout': how, 'alpha': alpha, 'ndf': ndf})
+            if bool(resl) != bool(res):
+                rep.violate(f'C05|layout|{how}|verdict', f'{ctx}: verdict {bool(resl)} for the {how} arrays, {bool(res)} for C-ordered ones',
+                            {'layout': how, 'alpha': alpha, 'ndf': ndf})
+    else:
+        rep.counters['layout_part_skipped_not_square'] += 1
     # ---- swap, rescaling
     for kind, fac, swap in (('swap', 1.0, True), ('x2', 2.0, False), ('x1e-3', 1e-3, False)):
         da = _mk([b[0] * fac for b in bins], [b[1] * fac for b in bins])
